@@ -66,7 +66,6 @@ theorem lift_atomicCondition {n : Nat} {ts rest : List Tok} {x : Raw} (h : Parse
     simp only [headIs, Bool.or_eq_false_iff] at hs
     simp only [hs.1, hs.2, Bool.false_eq_true, ↓reduceIte, pure, Except.pure]
 
-def isLogicKw (t : Tok) : Bool := isKw t "not" || isKw t "forall" || isKw t "exists"
 
 theorem lift_logic {n : Nat} {ts rest : List Tok} {x : Raw} (h : ParsesTo pAtomicCondition n ts x rest)
     (hh : headIs ts isLogicKw = false) (hne : ts ≠ []) : ParsesTo pLogic (n + 1) ts x rest := by
